@@ -437,4 +437,101 @@ theorem filter_abort_gap_chain_e2e {p : Preamble} {recs sbody mid : List Rec} {p
   · rw [← hlast]; exact hw.ph
 
 
+/-! ## Non-vacuity -/
+namespace Example2
+open Fcgi.C01.Example Fcgi.C07E.Example Fcgi.C07U.Example Fcgi.C11F.Example
+
+/-- `Stdin("AB")`, no terminator -/
+def fS1 : List Rec := [ { rtype := 5, id := 1, content := [65, 66], pad := [] } ]
+theorem fS1_body : Body 1 5 [65, 66] fS1 := Body.chunk [65, 66] [] 0 (by decide) (by decide) Body.nil
+theorem fS1_fits (M : Nat) : NoiseFits M fS1 := no_getValues_fits (by decide)
+
+/-- what follows the abort record in cell (i): the Stdin terminator and the Data stream `fD` -/
+def postI : List Rec := { rtype := 5, id := 1, content := [], pad := [] } :: fD
+theorem postI_wf : ∀ r ∈ postI, r.WF := by
+  intro r hr
+  rcases List.mem_cons.1 hr with rfl | hr
+  · exact ⟨by decide, by decide, by decide⟩
+  · exact fD_wf r hr
+theorem postI_fits : NoiseFits (alignedBufsize 64) postI := by
+  intro r hr hg
+  rcases List.mem_cons.1 hr with rfl | hr
+  · exact absurd hg.1 (by decide)
+  · exact fD_fits r hr hg
+theorem postI_noBegin : ∀ r ∈ postI, r.rtype.toNat ≠ RT.beginRequest := by decide
+
+/-- cell (a)(i), KEEP_CONN: the abort record sits inside Stdin (behind `Stdin("AB")`) -/
+def fr1T : Transport :=
+  { input := serAll recsFK ++ (serAll (fS1 ++ [aR]) ++ serAll postI), endMode := .pend,
+    rd := [.n 24, .n 7, .pending, .n 9, .all], wr := [.n 5, .pending, .all], fl := [] }
+
+/-- `filter_abort_stdin_e2e` applied to cell (a)(i) (propagating handler, KEEP_CONN).  Replayed
+(`# case c11f-keep-i-R,s8,R,Xcomplete:3-24,7,P,9,A`, model driver = crate): `… HS(3,1,-) R64:7 R57:P |1
+R57:9 R58:54 R!abort-request:2:4142 HE(err:abort-request) W16:5 W11:P |2 W11:11 W32:32 R64:W STALL`: the
+handler's first `readAll` fails (it had collected `"AB"`), the handler ends with the error; the 16-byte bare
+`EndRequest(1, ABORT)` (appStatus `41 42 52 54` = `"ABRT"`) is written — no empty Stdout / Stderr —;
+the next `parse_request` swallows the abort record, the Stdin terminator and the abandoned Data stream
+(its `GetValues` record answered, `W32`). -/
+example : ∃ c', runTask 20 (connS 64 10 fr1T [(rscript (.complete 3), true)]) 0 none = (c', "STALL") ∧
+    c'.env.tr.wlog = [1, 3, 0, 1, 0, 8, 0, 0, 65, 66, 82, 84, 0, 0, 0, 0] ++ idleOwed 10 postI ∧
+    c'.phase = .parseReq (track 64 10 (aR.ser ++ serAll postI)) .reading ∧
+    hsCount c'.env.tr.events = 1 ∧ c'.env.tr.input = [] := by
+  obtain ⟨c', fin, hrun, ho⟩ := filter_abort_stdin_e2e (p := preFK) (recs := recsFK) (pre := fS1) (a := aR)
+    (post := postI) (b := 64) (mc := 10) (content := [65, 66]) (s0 := .complete 3) (pr := true) (more := [])
+    (t := fr1T) (fuel := 20)
+    recsFK_wf rfl (fun q hq => by cases hq) (recsFK_fits _) fS1_body (fS1_fits _) aR_abort postI_wf postI_fits
+    postI_noBegin rfl ⟨by decide, by decide, rfl, by decide⟩ rfl (by decide) (by decide +kernel)
+  rcases ho.final with ⟨_, hlog, hf⟩ | ⟨h, _⟩
+  · rcases hf with ⟨h, _⟩ | ⟨_, hfin, hph, hin, _⟩
+    · exact absurd h (by decide)
+    · subst hfin
+      refine ⟨c', hrun, ?_, hph, ho.one_handler.1, hin⟩
+      rw [hlog]
+      show [] ++ (owedPreamble preFK 10 recsFK ++ owedActive 1 10 fS1 ++ endRequest 1 ExitStatus.abort ++
+        idleOwed 10 postI) = _
+      have h1 : owedPreamble preFK 10 recsFK = [] := by decide +kernel
+      have h2 : owedActive 1 10 fS1 = [] := by decide +kernel
+      rw [h1, h2]
+      simp only [List.nil_append]
+      rfl
+  · exact absurd h (by decide)
+
+/-- cell (b)(ii), KEEP_CONN: `Stdin("AB")`, the Stdin terminator, the abort record, the Data stream `fD` -/
+def fr2T : Transport :=
+  { input := serAll recsFK ++ gapX 1 fS1 [] 0 [] aR fD, endMode := .pend,
+    rd := [.n 24, .n 7, .pending, .n 9, .all], wr := [.n 5, .pending, .all], fl := [] }
+
+/-- `filter_abort_gap_e2e` applied to cell (b)(ii) (handler ignoring errors, KEEP_CONN).  Replayed
+(`# case c11f-keep-ii-~R,s8,R,Xcomplete:3-24,7,P,9,A`, model driver = crate): `… R=2:4142 s=ok
+R!abort-request:0:- HE(ok:complete:3) W16:5 W11:P |2 W11:11 W32:32 R64:W STALL`: the first `readAll` returns
+`"AB"`, `set_stream(Data)`, the second fails at once; the handler returns `Complete(3)`; bare
+`EndRequest(1, Complete(3))`. -/
+example : ∃ c', runTask 20 (connS 64 10 fr2T [(rscript (.complete 3), false)]) 0 none = (c', "STALL") ∧
+    c'.env.tr.wlog = [1, 3, 0, 1, 0, 8, 0, 0, 0, 0, 0, 3, 0, 0, 0, 0] ++ idleOwed 10 fD ∧
+    c'.phase = .parseReq (track 64 10 (aR.ser ++ serAll fD)) .reading ∧
+    hsCount c'.env.tr.events = 1 ∧ c'.env.tr.input = [] := by
+  obtain ⟨c', fin, hrun, ho⟩ := filter_abort_gap_e2e (p := preFK) (recs := recsFK) (sbody := fS1) (pad := [])
+    (res := 0) (mid := []) (a := aR)
+    (post := fD) (b := 64) (mc := 10) (content := [65, 66]) (s0 := .complete 3) (pr := false) (more := [])
+    (t := fr2T) (fuel := 20)
+    recsFK_wf rfl (fun q hq => by cases hq) (recsFK_fits _) fS1_body (fS1_fits _) (by decide) (fun _ h => nomatch h)
+    (fun _ h => nomatch h) aR_abort fD_wf fD_fits
+    fD_noBegin rfl ⟨by decide, by decide, rfl, by decide⟩ rfl (by decide) (by decide +kernel)
+  rcases ho.final with ⟨_, hlog, hf⟩ | ⟨h, _⟩
+  · rcases hf with ⟨h, _⟩ | ⟨_, hfin, hph, hin, _⟩
+    · exact absurd h (by decide)
+    · subst hfin
+      refine ⟨c', hrun, ?_, hph, ho.one_handler.1, hin⟩
+      rw [hlog]
+      show [] ++ (owedPreamble preFK 10 recsFK ++ owedActive 1 10 (gapPre 1 fS1 [] 0 []) ++
+        endRequest 1 (.complete 3) ++ idleOwed 10 fD) = _
+      have h1 : owedPreamble preFK 10 recsFK = [] := by decide +kernel
+      have h2 : owedActive 1 10 (gapPre 1 fS1 [] 0 []) = [] := by decide +kernel
+      rw [h1, h2]
+      simp only [List.nil_append]
+      rfl
+  · exact absurd h (by decide)
+
+end Example2
+
 end Fcgi.C11F
